@@ -71,6 +71,14 @@ def oracleOf (listing : List String) : Order.EnumOracle := fun s =>
 
 def fuel : Nat := 100000
 
+/-- what the operations before the failing one did (the real run is observed step by step) -/
+def partialOps (env : Env) : OpsOut → List Operation → OpsOut
+  | acc, [] => acc
+  | acc, o :: rest =>
+    match addOperation env fuel acc o with
+    | .ok a => partialOps env a rest
+    | .error _ => acc
+
 def handle (j : Json) : Except String Json := do
   let op ← Wire.fieldStr j "op"
   match op with
@@ -87,9 +95,8 @@ def handle (j : Json) : Except String Json := do
         ("mroConflict", (moduleTables out).any fun t => !Spec.Py.mroOK t)])
     | .error err =>
       -- what the operations did is still reported (the real run is observed step by step)
-      let acc := match addOperations env fuel ops with
-        | .ok acc => Json.mkObj [("ops", Json.arr (acc.ops.map encDef).toArray), ("excluded", strs (Util.sortStr acc.unpacked))]
-        | .error _ => Json.null
+      let a := partialOps env {} ops
+      let acc := Json.mkObj [("ops", Json.arr (a.ops.map encDef).toArray), ("excluded", strs (Util.sortStr a.unpacked))]
       pure (Json.mkObj [("failed", encErr err), ("before", acc), ("trigger", trig), ("mroConflict", false)])
   | "subclass" =>
     -- Spec.Py: is `c` a subclass of `b` given the class table [[name, [bases…]], …]
